@@ -25,7 +25,7 @@ MUTATORS = {
 }
 FRESH_CALLS = {
     "copy", "deepcopy", "list", "dict", "set", "tuple", "sorted", "len", "int", "float", "str", "bool", "max", "min", "sum",
-    "asarray", "array", "tolist", "item", "isin", "where", "unique", "nonzero", "zeros_like", "ones_like", "stack", "c_",
+    "array", "tolist", "item", "isin", "where", "unique", "nonzero", "zeros_like", "ones_like", "stack", "c_",
     "node_link_data", "ancestors", "descendants", "DataFrame", "merge", "get_time", "get_times", "get_position", "get_positions", "get_track_id",
     "get_lineage_id", "get_next_track_id", "get_next_lineage_id", "predecessors", "successors", "in_degree", "out_degree",
     "has_node", "has_edge", "number_of_nodes", "number_of_edges", "dump_json", "isinstance", "range", "enumerate", "zip",
@@ -36,7 +36,7 @@ FRESH_CALLS = {
 }
 # NOT fresh (they hand out the live containers): networkx views and accessors - subgraph(), nodes(data=True), edges(), .data(),
 # .items(), .values(), .get() - and the attribute getters get_node_attr / get_nodes_attr / get_edge_attr / get_edges_attr (a list-valued
-# attribute is returned by reference); repository callees among them are followed and their return aliasing computed.
+# attribute is returned by reference) and np.asarray (no copy for an ndarray argument); repository callees among them are followed and their return aliasing computed.
 # a mutator call that is allowed, with the reason (the property compares lookups as bags)
 ALLOWED = {("get_track_neighbors", "sort"): "reorders one lookup list in place; the lookup as a bag is unchanged"}
 
